@@ -154,6 +154,12 @@ Definition run_op (g : gid) (op : opcode) (mask : list bool) (iarg : Z) (args : 
       | GSO3, 10%Z => if m0 && negb (quat_ok eps a1) then InvalidArgument else Ok (fin (set_quat 0 a0 a1))
       | GSE3, 10%Z => if m0 && negb (quat_ok eps a1) then InvalidArgument else Ok (fin (set_quat 3 a0 a1))
       | GSE3, 11%Z => Ok (fin (vset a0 0 (firstn 3 a1)))
+      (* every group: 20 G(Eigen::Map<G>), 21 G(Eigen::Map<const G>): the converting constructors delegate to the validating
+         coefficient constructor.  22 X = data, 23 X = Map, 24 Map = data: the assignment operators the class macros
+         (MANIF_GROUP_ASSIGN_OP / MANIF_GROUP_MAP_ASSIGN_OP) declare copy the coefficients unvalidated - they hide
+         LieGroupBase::operator=(MatrixBase), the only caller of the AssignmentEvaluator - so nothing is rejected, as the code does *)
+      | _, 20%Z | _, 21%Z => rmap fin (checked G m0 a0)
+      | _, 22%Z | _, 23%Z | _, 24%Z => Ok (fin a0)
       | _, _ => LogicError
       end
   (* args: buffer, [off; off2] (as scalars: read back through the literal they came from), Y, t, [k; value]; see Views.v.
